@@ -424,6 +424,7 @@ class Delimiter:
     def __init__(self, start, end, string):
         self.type = string[start:end]
         self.number = end - start
+        self.orig_number = self.number
         self.active = True
         self.start = start
         self.end = end
@@ -452,8 +453,8 @@ class Delimiter:
             # restrictions apply: the sum of the lengths of the delimiter runs
             # containing the opening and closing delimiters must not be a multiple of 3
             # unless both lengths are multiples of 3.
-            return ((self.number + other.number) % 3 != 0
-                    or (self.number % 3 == 0 and other.number % 3 == 0))
+            return ((self.orig_number + other.orig_number) % 3 != 0
+                    or (self.orig_number % 3 == 0 and other.orig_number % 3 == 0))
         return True
 
     def __repr__(self):
